@@ -1532,6 +1532,7 @@ EGLPNUM_TYPENAME_QSLIB_INTERFACE int EGLPNUM_TYPENAME_QSchange_coef (
 	rval = EGLPNUM_TYPENAME_ILLlib_chgcoef (p->lp, rowindex, colindex, coef);
 	CHECKRVALG (rval, CLEANUP);
 
+	p->factorok = 0;							/* the basis matrix may have changed */
 	free_cache (p);
 
 CLEANUP:
